@@ -232,6 +232,20 @@ def run(ctx):
     if not found:
         chk.ok(R5, q, 'repack state machine', detail=f'effects visited: {sorted(m.seen_effects)}')
 
+    # ---------------------------------------------------------------- R6: a committed row designates bytes that are already in the pack file
+    R6 = chk.rule('C03.R6', 'pack writers: an index row is committed only after its bytes left the user-space buffer (flush/close): committed ranges lie inside the file at every point', 2)
+    from .machines import PackMachine
+    for q in WRITERS[:2]:
+        def mk(g, consts, _q=q):
+            ce = ('do_commit' not in prog.fn(_q).params) or consts.get('do_commit') is True
+            return PackMachine(ctx, g, require_durable=False, commit_expected=ce, rule_flush='C03.R6', rule_unlink='C03.R6x', rule_durable='C03.R6x', rule_exc='C03.R6x')
+        fixed = {'do_commit': True} if 'do_commit' in prog.fn(q).params and not ctx.thorough else {}
+        found, m6 = explore(ctx, chk, q, fixed, mk, pol, 'wp5')
+        found = [(v, c) for v, c in found if v.rule == 'C03.R6']
+        report_violations(chk, q, found)
+        if not found:
+            chk.ok(R6, q, f'{len(m6.sites.insert_nodes)} insert site(s)', detail='COMMIT only with the pack bytes flushed or the handle closed')
+
     # ---------------------------------------------------------------- R3
     obj = prog.cls('database:Obj')
     col = obj.constants.get('hashkey')
